@@ -147,8 +147,10 @@ def _vary_opts(r: Rng, base: dict, tier: str) -> dict:
         o["pp_max_empty"] = r.choice([0, 1, 2])
     if r.chance(1, 4):
         o["pp_prog"] = r.choice([True, "rename"])  # formatter edits in place / replaces the file by temp + rename
-    if r.chance(1, 8):
+    if r.chance(1, 6) and lang in ("py", "html"):
         o["ns_types"] = True
+    if r.chance(1, 8):
+        o["ns_stem"] = r.choice(["_ns", "index", "module"])
     if r.chance(1, 10) and lang in ("c", "cpp"):
         o["ext"] = r.choice([".h", ".hh", "hpp", ".inc"])
     if lang == "cpp" and r.chance(1, 4):
